@@ -7,6 +7,7 @@ entries, drop field columns, drop unreferenced inputs, NetCDF -> text).  Bounded
 execution budget.
 """
 import copy
+import json
 
 
 class Minimiser(object):
@@ -33,15 +34,22 @@ class Minimiser(object):
         sig = result["violation"]["signature"]
         best = copy.deepcopy(spec)
         best_res = result
+        key = "cases" if "cases" in best else "ops"
+        self.key = key
         # 1. truncate
-        step = result["violation"].get("step", len(best["ops"]) - 1)
-        if step is not None and 0 <= step < len(best["ops"]) - 1:
-            cand = dict(best, ops=best["ops"][:step + 1])
+        step = result["violation"].get("step", len(best[key]) - 1)
+        if step is not None and 0 <= step < len(best[key]) - 1:
+            cand = dict(best, **{key: best[key][:step + 1]})
+            r = self.fails(cand, sig)
+            if r:
+                best, best_res = cand, r
+        if best.get("fresh") and "fresh" not in sig:
+            cand = dict(best, fresh=False)
             r = self.fails(cand, sig)
             if r:
                 best, best_res = cand, r
         # 2. ddmin on ops
-        best, best_res = self.ddmin(best, best_res, sig, "ops")
+        best, best_res = self.ddmin(best, best_res, sig, key)
         if best.get("pre_ops"):
             best, best_res = self.ddmin(best, best_res, sig, "pre_ops", allow_empty=True)
         # 3. config options
@@ -53,7 +61,7 @@ class Minimiser(object):
             if r:
                 best, best_res = cand, r
         # 4. request simplification
-        for i in range(len(best["ops"])):
+        for i in range(len(best.get("ops", []))):
             op = best["ops"][i]
             if op.get("op") != "req":
                 continue
@@ -68,7 +76,7 @@ class Minimiser(object):
         # 5. world
         best, best_res = self.shrink_world(best, best_res, sig)
         # 6. ops once more (the smaller world may allow it)
-        best, best_res = self.ddmin(best, best_res, sig, "ops")
+        best, best_res = self.ddmin(best, best_res, sig, key)
         return best, best_res
 
     def ddmin(self, spec, res, sig, key, allow_empty=False):
@@ -95,6 +103,13 @@ class Minimiser(object):
         return spec, res
 
     @staticmethod
+    def refers(spec, index, name):
+        if "cases" in spec:
+            return name in json.dumps(spec["cases"])
+        return any(op.get("op") in ("req", "sweep") and op.get("input", 0) >= index for op in spec["ops"]) or \
+            (spec.get("twin") is not None and spec["twin"] >= index)
+
+    @staticmethod
     def req_variants(op):
         out = []
         if len(op["fields"]) > 1:
@@ -116,7 +131,7 @@ class Minimiser(object):
             cands = []
             # drop the last scored input when nothing refers to it
             n = len(world["inputs"])
-            if n > 1 and not any(op.get("op") == "req" and op.get("input", 0) >= n - 1 for op in spec["ops"]):
+            if n > 1 and not self.refers(spec, n - 1, world["inputs"][-1]["name"]):
                 w = copy.deepcopy(world)
                 w["inputs"] = w["inputs"][:-1]
                 cands.append(w)
@@ -139,7 +154,7 @@ class Minimiser(object):
                         del p2["fields"][name]
                         p2["layout"]["colorder"] = [c for c in p2["layout"]["colorder"] if c != name]
                         cands.append(w)
-                if party["format"] == "nc" and not any(op.get("op") == "arm" and op.get("file") == party["name"] for op in spec["ops"]):
+                if party["format"] == "nc" and not any(op.get("op") == "arm" and op.get("file") == party["name"] for op in spec.get("ops", [])):
                     w = copy.deepcopy(world)
                     p2 = W.parties(w)[pi]
                     p2["format"] = "text"
